@@ -163,6 +163,13 @@ int32_t jls_core_signal_def_validate(struct jls_signal_def_s const * def) {
             return JLS_ERROR_PARAMETER_INVALID;
     }
 
+    // Bound the storage parameters so that normalization cannot overflow 32 bits.
+    if ((def->samples_per_data > (1U << 30)) || (def->sample_decimate_factor > (1U << 30))
+            || (def->entries_per_summary > (1U << 30)) || (def->summary_decimate_factor > (1U << 30))) {
+        JLS_LOGW("signal %d: storage parameter too big", (int) def->signal_id);
+        return JLS_ERROR_PARAMETER_INVALID;
+    }
+
     // Check fixed-point specification
     if (jls_datatype_parse_q(def->data_type)) {
         switch (jls_datatype_parse_basetype(def->data_type)) {
